@@ -65,12 +65,12 @@ class RBuf:
     def __bool__(self):
         return bool(self.__pyvc_len__() > 0)
 
-    def find(self, d):
-        if isinstance(self.view, SStr) or isinstance(d, SStr):
+    def find(self, d, start=0):
+        if isinstance(self.view, SStr) or isinstance(d, SStr) or isinstance(start, SInt):
             v = self.view if isinstance(self.view, SStr) else SStr(z3.StringVal(self.view.decode("latin1")), True)
             dd = d.t if isinstance(d, SStr) else z3.StringVal(bytes(d).decode("latin1"))
-            return SInt(z3.IndexOf(v.t, dd, 0))
-        return bytes(self.view).find(bytes(d))
+            return SInt(z3.IndexOf(v.t, dd, start.t if isinstance(start, SInt) else start))
+        return bytes(self.view).find(bytes(d), start)
 
     def __iadd__(self, data):
         if isinstance(data, _Slice):
@@ -311,7 +311,9 @@ def u_loop(c):
     F = z3.Function("find_read_pos_of", z3.StringSort(), z3.IntSort())      # -1 stands for None
     found = []
 
-    def find_read_pos():
+    def find_read_pos(*a, **kw):
+        if a or kw:
+            raise core.Unsupported("_find_read_pos is called with arguments its contract (the whole buffer is searched) does not cover: the loop is decided by the stand-in only")
         v = bview(s)
         if isinstance(v, SStr):
             r = SInt(F(v.t))
